@@ -46,7 +46,7 @@ def context(tier, seed):
 
 
 def units(ctx):
-    return list(range(len(bases(ctx)))) + list(hist.hist_units())
+    return list(range(len(bases(ctx)))) + list(hist.hist_units()) + ["long"]
 
 
 def variants(ns, ev, ctx):
@@ -90,6 +90,20 @@ def variants(ns, ev, ctx):
 
 
 def gen_cases(unit, ctx):
+    if unit == "long":
+        for n in (16, 48, 120):
+            ns = [list(x) for x in lib.long_desc(n, ctx["p"], (ctx["ch"][0], ctx["ch"][1], 7), 5)]
+            ev = [["ts", 0, 3, 4], ["ks", 5 * n // 2, "G"]]
+            for i in sorted({0, n // 2, n - 1}):
+                for kind_, f in (("perturb:pitch", lambda x: [x[0], x[1], x[2] + 12, x[3], x[4]]),
+                                 ("perturb:onset", lambda x: [x[0] + 1, x[1], x[2], x[3], x[4]]),
+                                 ("perturb:length", lambda x: [x[0], x[1] + 1, x[2], x[3], x[4]]),
+                                 ("perturb:velocity", lambda x: [x[0], x[1], x[2], x[3], 127 if x[4] != 127 else 1])):
+                    vn = ns[:i] + [f(ns[i])] + ns[i + 1:]
+                    yield {"base": ns, "base_ev": ev, "kind": kind_, "notes": vn, "events": ev, "build": "abs", "order": None}
+            yield {"base": ns, "base_ev": ev, "kind": "identity:relative", "notes": ns, "events": ev, "build": "rel", "order": None}
+            yield {"base": ns, "base_ev": ev, "kind": "identity:copy", "notes": ns, "events": ev, "build": "copy", "order": None}
+        return
     if isinstance(unit, tuple):
         for h in hist.hist_of_unit(unit):
             yield {"seed": unit[1], "build": unit[2], "hist": h, "kind": "identity:history"}
